@@ -154,22 +154,7 @@ func runC02(r *Run) {
 				r.bad("R02.1", c+".Run", op.pos["Run"], "%s: effect differs from RV32IM %s\n      full code term: %s", op.mnemonic, why, got.Pretty())
 			}
 		}
-		// R02.4 — MemoryRead / MemoryWrite
-		for _, m := range []string{"MemoryRead", "MemoryWrite"} {
-			want := sp.memRead
-			if m == "MemoryWrite" {
-				want = sp.memWrite
-			}
-			if want == nil {
-				want = outRet(tNil)
-			}
-			if e, bad := op.errs[m]; bad {
-				r.undecided("R02.4", c+"."+m, op.pos[m], "%s not in a recognised form: %s", m, e)
-				continue
-			}
-			eq, diff := equivTrees(op.terms[m], hoistAll(want))
-			r.check(eq, "R02.4", c+"."+m, op.pos[m], "%s: %s address list agrees with the RV32IM row %s", op.mnemonic, m, diff)
-		}
+		addressLists(r, "R02.4", c, op, sp)
 		// R02.2 — declared sets are exact
 		var used []*Term
 		for _, m := range []string{"Run", "MemoryRead", "MemoryWrite"} {
@@ -281,5 +266,26 @@ func runC02(r *Run) {
 		}
 	} else {
 		r.undecided("R02.3", "risc.IsRegisterChange", token.NoPos, "function not found")
+	}
+}
+
+// addressLists: MemoryRead / MemoryWrite of one opcode return exactly the byte
+// addresses of the RV32IM row (the addresses the variants probe, lock and route on).
+func addressLists(r *Run, rule, c string, op *opcodeInfo, sp *rvSpec) {
+		// R02.4 — MemoryRead / MemoryWrite
+	for _, m := range []string{"MemoryRead", "MemoryWrite"} {
+		want := sp.memRead
+		if m == "MemoryWrite" {
+			want = sp.memWrite
+		}
+		if want == nil {
+			want = outRet(tNil)
+		}
+		if e, bad := op.errs[m]; bad {
+			r.undecided(rule, c+"."+m, op.pos[m], "%s not in a recognised form: %s", m, e)
+			continue
+		}
+		eq, diff := equivTrees(op.terms[m], hoistAll(want))
+		r.check(eq, rule, c+"."+m, op.pos[m], "%s: %s address list agrees with the RV32IM row %s", op.mnemonic, m, diff)
 	}
 }
